@@ -242,12 +242,15 @@ Section Fuel.
     apply nofuel_bind; [apply IH; lia | intros; discriminate].
   Qed.
 
-  Lemma message_nofuel : forall fa fe d pf pr bs, nofuel (dec_message st fa fe rd d pf pr bs).
+  Lemma message_nofuel : forall fa fe d pf pr tr bs, nofuel (dec_message st fa fe rd d pf pr tr bs).
   Proof.
-    intros. unfold dec_message. apply nofuel_bind; [apply nofuel_fixed | intros].
-    apply nofuel_bind; [apply header_nofuel | intros].
-    apply nofuel_bind; [apply nofuel_shortstr | intros].
-    apply nofuel_bind; [apply nofuel_shortstr | intros].
-    apply nofuel_bind; [apply body_nofuel; lia | intros; discriminate].
+    intros. unfold dec_message. apply nofuel_bind.
+    - unfold dec_message_core. apply nofuel_bind; [apply nofuel_fixed | intros].
+      apply nofuel_bind; [apply header_nofuel | intros].
+      apply nofuel_bind; [apply nofuel_shortstr | intros].
+      apply nofuel_bind; [apply nofuel_shortstr | intros].
+      apply nofuel_bind; [apply body_nofuel; lia | intros; discriminate].
+    - intros x _. destruct (tr && (4 <=? blen (snd x))); [|discriminate].
+      apply nofuel_bind; [apply nofuel_fixed | intros; discriminate].
   Qed.
 End Fuel.
